@@ -716,6 +716,15 @@ class Frame:
                 return self._project(self.store.get(v.root, TOP), v.proj)
             if p['l'] >= 1 and p['l'] <= self.body.arg_count and ('*', p['l']) in self.store:
                 return self.store[('*', p['l'])]
+            # a copy / reborrow-free move of a by-reference parameter
+            l_ = p['l']
+            for _ in range(6):
+                rv_ = self.res.local_def_rv(l_)
+                if not (rv_ and rv_['k'] == 'use' and rv_['op'][0] in ('m', 'c') and not rv_['op'][1]['p']):
+                    break
+                l_ = rv_['op'][1]['l']
+                if 1 <= l_ <= self.body.arg_count and ('*', l_) in self.store:
+                    return self.store[('*', l_)]
             c = self.res.local_const(p['l'])
             if c is not None:
                 return const_to_abs(c)
@@ -1145,6 +1154,8 @@ class Interp:
             v = fr.load(rv['place'])
             if isinstance(v, Opt):
                 fr.storev(dst, ('discr', v, rv['place']))
+            elif isinstance(v, Agg) and v.kind and isinstance(v.kind[0], str) and v.kind[0].endswith('cmp::Ordering') and v.kind[1] in ('Less', 'Equal', 'Greater'):
+                fr.storev(dst, Int({'Less': 255, 'Equal': 0, 'Greater': 1}[v.kind[1]], 8))
             else:
                 fr.storev(dst, TOP)
         else:
